@@ -1,6 +1,7 @@
 //! C18 — get_close_matches equals exhaustive ranking by similarity ratio.
 
 use crate::core::*;
+use crate::gen::BStr;
 use crate::oracle::*;
 use proptest::collection::vec;
 use proptest::prelude::*;
@@ -11,16 +12,43 @@ pub struct C18;
 
 #[derive(Clone, Debug, Serialize, Deserialize)]
 pub struct Case {
-    pub word: String,
-    pub cands: Vec<String>,
+    pub word: BStr,
+    pub cands: Vec<BStr>,
     pub n: usize,
     pub cutoff: f32,
+    /// call get_close_matches on [u8] (always when a string is not valid UTF-8)
     pub bytes: bool,
 }
 
-pub fn ref_ratio(a: &str, b: &str) -> f32 {
-    let x: Vec<char> = a.chars().collect();
-    let y: Vec<char> = b.chars().collect();
+/// the characters of a byte string: scalar values, and for invalid UTF-8 one unit per maximal
+/// invalid subpart (std's decoding policy, written without the library or bstr)
+pub fn byte_chars(mut b: &[u8]) -> Vec<&[u8]> {
+    let mut out = vec![];
+    while !b.is_empty() {
+        match std::str::from_utf8(b) {
+            Ok(s) => {
+                for (o, ch) in s.char_indices() {
+                    out.push(&b[o..o + ch.len_utf8()]);
+                }
+                break;
+            }
+            Err(e) => {
+                let v = e.valid_up_to();
+                for (o, ch) in std::str::from_utf8(&b[..v]).unwrap().char_indices() {
+                    out.push(&b[o..o + ch.len_utf8()]);
+                }
+                let bad = e.error_len().unwrap_or(b.len() - v);
+                out.push(&b[v..v + bad]);
+                b = &b[v + bad..];
+            }
+        }
+    }
+    out
+}
+
+pub fn ref_ratio(a: &[u8], b: &[u8]) -> f32 {
+    let x = byte_chars(a);
+    let y = byte_chars(b);
     if x.len() + y.len() == 0 {
         return 1.0;
     }
@@ -28,59 +56,66 @@ pub fn ref_ratio(a: &str, b: &str) -> f32 {
 }
 
 fn check_case(c: &Case, obs: &mut Obs) -> Verdict {
-    let cands: Vec<&str> = c.cands.iter().map(|s| s.as_str()).collect();
-    let got: Vec<String> = if c.bytes {
-        let cb: Vec<&[u8]> = cands.iter().map(|s| s.as_bytes()).collect();
-        match guard(|| get_close_matches(c.word.as_bytes(), &cb, c.n, c.cutoff)) {
-            Ok(v) => v.into_iter().map(|b| String::from_utf8_lossy(b).into_owned()).collect(),
+    let cands: Vec<&[u8]> = c.cands.iter().map(|s| &s.0[..]).collect();
+    let all_valid = c.word.as_str().is_some() && c.cands.iter().all(|s| s.as_str().is_some());
+    let use_bytes = c.bytes || !all_valid;
+    let got: Vec<BStr> = if use_bytes {
+        match guard(|| get_close_matches(&c.word.0[..], &cands, c.n, c.cutoff)) {
+            Ok(v) => v.into_iter().map(|b| BStr(b.to_vec())).collect(),
             Err(p) => return Verdict::Fail(format!("get_close_matches([u8]): {}", p)),
         }
     } else {
-        match guard(|| get_close_matches(c.word.as_str(), &cands, c.n, c.cutoff)) {
-            Ok(v) => v.into_iter().map(|s| s.to_string()).collect(),
+        let cs: Vec<&str> = c.cands.iter().map(|s| s.as_str().unwrap()).collect();
+        match guard(|| get_close_matches(c.word.as_str().unwrap(), &cs, c.n, c.cutoff)) {
+            Ok(v) => v.into_iter().map(|s| BStr(s.as_bytes().to_vec())).collect(),
             Err(p) => return Verdict::Fail(format!("get_close_matches: {}", p)),
         }
     };
-    let mut ranked: Vec<(f32, &str)> = cands.iter().map(|s| (ref_ratio(&c.word, s), *s)).filter(|(r, _)| *r >= c.cutoff).collect();
-    ranked.sort_by(|a, b| b.0.partial_cmp(&a.0).unwrap().then(a.1.as_bytes().cmp(b.1.as_bytes())));
+    let mut ranked: Vec<(f32, &[u8])> = cands.iter().map(|s| (ref_ratio(&c.word.0, s), *s)).filter(|(r, _)| *r >= c.cutoff).collect();
+    ranked.sort_by(|a, b| b.0.partial_cmp(&a.0).unwrap().then(a.1.cmp(b.1)));
     let total = ranked.len();
-    let want: Vec<String> = ranked.iter().take(c.n).map(|(_, s)| s.to_string()).collect();
+    let want: Vec<BStr> = ranked.iter().take(c.n).map(|(_, s)| BStr(s.to_vec())).collect();
     if got != want {
         return Verdict::Fail(format!(
             "get_close_matches({:?}, {:?}, n={}, cutoff={}) = {:?}, exhaustive ranking gives {:?} (ratios {:?})",
             c.word, c.cands, c.n, c.cutoff, got, want,
-            cands.iter().map(|s| ref_ratio(&c.word, s)).collect::<Vec<_>>()
+            cands.iter().map(|s| ref_ratio(&c.word.0, s)).collect::<Vec<_>>()
         ));
     }
-    let exact = cands.iter().any(|s| ref_ratio(&c.word, s) == c.cutoff);
+    let exact = cands.iter().any(|s| ref_ratio(&c.word.0, s) == c.cutoff);
     let ties = ranked.windows(2).any(|w| w[0].0 == w[1].0 && w[0].1 != w[1].1);
     obs.nontrivial = !want.is_empty() && want.len() < c.cands.len();
     obs.class_if(exact, "cutoff hit exactly by a candidate");
     obs.class_if(ties, "equal ratios among kept candidates");
     obs.class_if(total > c.n, "more matches than n");
-    obs.class_if(c.bytes, "[u8]");
+    obs.class_if(use_bytes, "[u8]");
+    obs.class_if(!all_valid, "invalid UTF-8 involved");
     obs.class_if(c.n > 1 << 40, "huge n (all matches)");
-    obs.class_if(c.word.chars().count() >= 100, "word of 100+ symbols");
-    obs.class_if(c.cands.iter().any(|s| s.is_empty()) || c.word.is_empty(), "empty string involved");
-    obs.class_if(!c.word.is_ascii() || c.cands.iter().any(|s| !s.is_ascii()), "multi-byte");
+    obs.class_if(byte_chars(&c.word.0).len() >= 100, "word of 100+ symbols");
+    obs.class_if(c.cands.iter().any(|s| s.0.is_empty()) || c.word.0.is_empty(), "empty string involved");
+    obs.class_if(!c.word.0.is_ascii() || c.cands.iter().any(|s| !s.0.is_ascii()), "multi-byte");
     Verdict::Pass
 }
 
-const SYMS: [&str; 7] = ["a", "b", "c", "p", "l", "\u{f6}", "e\u{301}"];
+/// symbols 0..7 are valid UTF-8; 7.. are bytes / byte pairs that are not (latin-1 e-acute, 0xFF,
+/// a lone continuation byte, a truncated 4-byte sequence) and only occur in byte-string cases
+const SYMS: [&[u8]; 11] = [b"a", b"b", b"c", b"p", b"l", "\u{f6}".as_bytes(), "e\u{301}".as_bytes(), b"\xe9", b"\xff", b"\x80", b"\xf0\x9f"];
+const VALID_SYMS: usize = 7;
 
 fn word(max: usize) -> impl Strategy<Value = Vec<usize>> {
-    vec(prop_oneof![4 => 0usize..4, 1 => 0usize..SYMS.len()], 0..=max)
+    vec(prop_oneof![8 => 0usize..4, 2 => 0usize..VALID_SYMS, 1 => 0usize..SYMS.len()], 0..=max)
 }
 
-fn render(w: &[usize]) -> String {
-    w.iter().map(|i| SYMS[*i]).collect()
+/// `invalid` = false maps the non-UTF-8 symbols onto valid ones
+fn render(w: &[usize], invalid: bool) -> BStr {
+    BStr(w.iter().flat_map(|i| SYMS[if invalid || *i < VALID_SYMS { *i } else { *i - VALID_SYMS }].iter().copied()).collect())
 }
 
 /// long words (100-300 symbols): ratios that differ only far behind the decimal point
 fn long_strat() -> BoxedStrategy<Case> {
     (vec(0usize..3, 100..=300), vec(vec((0u8..3, any::<u16>(), 0usize..4), 1..=6), 2..=8), prop_oneof![Just(1usize), Just(2), Just(3), Just(usize::MAX)], 0usize..8, any::<bool>())
         .prop_map(|(w, cand_edits, n, pick, bytes)| {
-            let cands: Vec<String> = cand_edits
+            let cands: Vec<BStr> = cand_edits
                 .into_iter()
                 .map(|es| {
                     let mut v = w.clone();
@@ -98,11 +133,11 @@ fn long_strat() -> BoxedStrategy<Case> {
                             _ => {}
                         }
                     }
-                    render(&v)
+                    render(&v, false)
                 })
                 .collect();
-            let word = render(&w);
-            let cutoff = if pick == 7 { 0.6 } else { ref_ratio(&word, &cands[pick % cands.len()]) };
+            let word = render(&w, false);
+            let cutoff = if pick == 7 { 0.6 } else { ref_ratio(&word.0, &cands[pick % cands.len()].0) };
             Case { word, cands, n, cutoff, bytes }
         })
         .boxed()
@@ -123,13 +158,14 @@ fn short_strat() -> BoxedStrategy<Case> {
         2 => prop_oneof![Just(-1i32), Just(-2), Just(-3), Just(-4)],
         4 => (0i32..9),
         2 => (100i32..201),
-    ], any::<bool>(), any::<bool>())
-        .prop_map(|(w, cs, n, cut, bytes, dup)| {
-            let mut cands: Vec<String> = cs
+    ], any::<bool>(), any::<bool>(), any::<bool>())
+        .prop_map(|(w, cs, n, cut, bytes, dup, inv)| {
+            let invalid = bytes && inv;
+            let mut cands: Vec<BStr> = cs
                 .into_iter()
                 .map(|(ind, es)| {
                     if es.is_empty() && !ind.is_empty() {
-                        render(&ind)
+                        render(&ind, invalid)
                     } else {
                         let mut v = w.clone();
                         for (k, at, sym) in es {
@@ -146,7 +182,7 @@ fn short_strat() -> BoxedStrategy<Case> {
                                 _ => {}
                             }
                         }
-                        render(&v)
+                        render(&v, invalid)
                     }
                 })
                 .collect();
@@ -154,7 +190,7 @@ fn short_strat() -> BoxedStrategy<Case> {
                 let x = cands[0].clone();
                 cands.push(x);
             }
-            let word = render(&w);
+            let word = render(&w, invalid);
             let cutoff = match cut {
                 -1 => 0.0,
                 -2 => 0.5,
@@ -162,7 +198,7 @@ fn short_strat() -> BoxedStrategy<Case> {
                 -4 => 1.0,
                 i if i < 100 => {
                     // the exact ratio of a candidate, so that ">= cutoff" is hit exactly
-                    if cands.is_empty() { 0.6 } else { ref_ratio(&word, &cands[i as usize % cands.len()]) }
+                    if cands.is_empty() { 0.6 } else { ref_ratio(&word.0, &cands[i as usize % cands.len()].0) }
                 }
                 h => (h - 100) as f32 / 100.0,
             };
@@ -175,7 +211,7 @@ impl Prop for C18 {
     type Case = Case;
     const ID: &'static str = "C18";
     fn rule() -> String {
-        "cases = (word, 0-10 candidates, n in 0..6 | usize::MAX | 2^60, cutoff, str | [u8]); 1 case in ~60 uses words of 100-300 symbols with candidates 1-6 edits away (ratios that differ by less than 1e-4); words over a 7-symbol alphabet incl. multi-byte and a combining sequence; candidates independent or 1-2 edits away from the word, duplicates and empty strings included; cutoff in {0, 0.5, 0.6, 1.0} | the exact ratio of one candidate (so '>= cutoff' is hit exactly) | hundredths. Oracle: brute force — ratio = 2*LCS(chars)/(n+m) by an independent DP (1.0 for two empty strings), keep ratio >= cutoff, sort by ratio descending then candidate ascending (bytewise), take n, compare as value lists. Non-trivial = result non-empty and shorter than the candidate list; distinct = distinct serialized case.".into()
+        "cases = (word, 0-10 candidates, n in 0..6 | usize::MAX | 2^60, cutoff, str | [u8]); 1 case in ~60 uses words of 100-300 symbols with candidates 1-6 edits away (ratios that differ by less than 1e-4); words over a 7-symbol alphabet incl. multi-byte and a combining sequence, for [u8] additionally 4 non-UTF-8 symbols (latin-1 byte, 0xFF, lone continuation byte, truncated 4-byte sequence; a character of a byte string = one scalar value or one maximal invalid subpart); candidates independent or 1-2 edits away from the word, duplicates and empty strings included; cutoff in {0, 0.5, 0.6, 1.0} | the exact ratio of one candidate (so '>= cutoff' is hit exactly) | hundredths. Oracle: brute force — ratio = 2*LCS(chars)/(n+m) by an independent DP (1.0 for two empty strings), keep ratio >= cutoff, sort by ratio descending then candidate ascending (bytewise), take n, compare as value lists. Non-trivial = result non-empty and shorter than the candidate list; distinct = distinct serialized case.".into()
     }
     fn assumptions() -> Vec<String> {
         vec!["ratios are computed in f32 with the same expression as the documented formula; for words up to a few hundred symbols distinct f32 ratios stay distinct under the library's scaling to u32 (exact power-of-two scaling for ratios >= 2^-8)".into()]
